@@ -378,7 +378,12 @@ type c07Search struct {
 	passes   int
 	closed   bool
 	closureX int64 // executions spent in the closure
+	capped   bool  // the search hit its time / size budget: what follows covers what was found so far
 }
+
+// more distinct free-object classes than this means the pool state space is not closing (e.g. a leak that grows with
+// every call); the search stops and the probes run on what was found
+const c07MaxProtos = 4000
 
 var c07Cache = map[string]*c07Search{}
 
@@ -465,6 +470,12 @@ func c07GetSearch(tier string) *c07Search {
 	}
 	depth, evDevs, passes := c07Params(tier)
 	s := &c07Search{classes: map[string]int{}}
+	var searchDL time.Time
+	if !RunDeadline.IsZero() {
+		// the search may use at most 40% of what is left of the run
+		searchDL = time.Now().Add(time.Until(RunDeadline) * 2 / 5)
+	}
+	expired := func() bool { return !searchDL.IsZero() && time.Now().After(searchDL) }
 	seen := map[string]bool{}
 	classSeen := map[string]bool{}
 	zh.Reset()
@@ -498,20 +509,24 @@ func c07GetSearch(tier string) *c07Search {
 			}
 			// explore exactly one more event below this state's history
 			tmp := mc.NewStats()
-			mc.ExploreFrom("bfs", scn, append(append([]int(nil), prefix...), 1), mc.Bounds{MaxDevs: evDevs}, tmp, tier)
+			mc.ExploreFrom("bfs", scn, append(append([]int(nil), prefix...), 1), mc.Bounds{MaxDevs: evDevs, Deadline: searchDL}, tmp, tier)
+			if expired() || len(s.protos) > c07MaxProtos {
+				s.capped = true
+				break
+			}
 		}
 		s.levels = append(s.levels, len(next))
 		level = next
 		if os.Getenv("ZOGMC_DEBUG") != "" {
 			fmt.Fprintf(os.Stderr, "%s c07 bfs depth %d: new %d total %d trans %d protos %d classes %v\n", time.Now().Format("15:04:05"), d+1, len(next), len(s.states), s.trans, len(s.protos), s.classes)
 		}
-		if len(next) == 0 {
+		if len(next) == 0 || s.capped {
 			break
 		}
 	}
 	// closure: from the pool holding every known class, run every event with ≤evDevs recycled
 	// objects handed to it (fresh otherwise); new classes extend the pool; repeat to a fixpoint
-	for pass := 0; pass < passes; pass++ {
+	for pass := 0; pass < passes && !s.capped; pass++ {
 		n := len(s.protos)
 		grew := false
 		scn := func(x *mc.X) *mc.Outcome {
@@ -526,9 +541,12 @@ func c07GetSearch(tier string) *c07Search {
 			return &mc.Outcome{Sig: "closure"}
 		}
 		tmp := mc.NewStats()
-		mc.ExploreFrom("closure", scn, []int{1}, mc.Bounds{MaxDevs: evDevs}, tmp, tier)
+		mc.ExploreFrom("closure", scn, []int{1}, mc.Bounds{MaxDevs: evDevs, Deadline: searchDL}, tmp, tier)
 		s.closureX += tmp.Executions
 		s.passes++
+		if expired() || len(s.protos) > c07MaxProtos {
+			s.capped = true
+		}
 		if os.Getenv("ZOGMC_DEBUG") != "" {
 			fmt.Fprintf(os.Stderr, "%s c07 closure pass %d: protos %d -> %d, executions %d, classes %v\n", time.Now().Format("15:04:05"), pass+1, n, len(s.protos), tmp.Executions, s.classes)
 		}
@@ -765,6 +783,7 @@ func init() {
 				"distinct_free_object_classes":     s.classes,
 				"closure_passes":                   s.passes,
 				"closure_fixpoint_reached":         s.closed,
+				"search_budget_hit":                s.capped,
 				"closure_executions":               s.closureX,
 				"state_multiplicity_cap":           c07Cap,
 			}
